@@ -36,6 +36,10 @@ fn main() {
             }
         }
     }
+    if args[1] == "dump-c08" {
+        props::c08::dump(&run::load_replay(&args[2]).unwrap());
+        return;
+    }
     let id = args[1].as_str();
     if args.len() >= 4 && args[2] == "--replay" {
         let v = match run::load_replay(&args[3]) {
